@@ -60,7 +60,14 @@ func (s *ScanMethod) ProcessPacketData(data []byte, _ *gopacket.CaptureInfo) err
 	if err := s.parser.DecodeLayers(data, &s.rcvDecoded); err != nil {
 		return err
 	}
-	if len(s.rcvDecoded) != 2 {
+	// the frame itself must contain an ARP packet, otherwise the ARP layer
+	// left over from a previous frame would be reported
+	if len(s.rcvDecoded) != 2 ||
+		s.rcvDecoded[0] != layers.LayerTypeEthernet || s.rcvDecoded[1] != layers.LayerTypeARP {
+		return nil
+	}
+	// only Ethernet/IPv4 ARP is supported
+	if len(s.rcvARP.SourceHwAddress) != 6 || len(s.rcvARP.SourceProtAddress) != net.IPv4len {
 		return nil
 	}
 
